@@ -514,6 +514,30 @@ Fixpoint cone_ops2_first_bad2 (q : st) (E G : list str) (i : nat) (edges : list 
     | c => Some (i, c)
     end
   end.
+(* the hypotheses and the objects of the cone theorem along a rebuild stepped with the transactions since
+   84081f2 (cone_op2, the clause of one transaction, is unchanged) *)
+Fixpoint cone_ops2x (q : st) (E G : list str) (h : list (st * op)) (s : st) (ops : list op) : Prop :=
+  match ops with
+  | [] => True
+  | o :: ops' => cone_op2 q E G ((s, o) :: h) s o /\ cone_ops2x q E G ((s, o) :: h) (apply_op2 s o) ops'
+  end.
+Fixpoint rebuild_hist2 (h : list (st * op)) (s : st) (ops : list op) : list (st * op) :=
+  match ops with
+  | [] => h
+  | o :: ops' => rebuild_hist2 ((s, o) :: h) (apply_op2 s o) ops'
+  end.
+Fixpoint executed2 (ops : list op) (s : st) : list str :=
+  match ops with
+  | [] => []
+  | o :: ops' =>
+    match o with
+    | OpDispatch l => if has_hash l s then [] else [l]
+    | _ => []
+    end ++ executed2 ops' (apply_op2 s o)
+  end.
+Definition cone_ops2x_b (q : st) (E G : list str) (s : st) (ops : list op) : bool :=
+  match cone_ops2_first_bad2 q E G 0 [] s ops with None => true | Some _ => false end.
+
 Definition successful_history2 (cap : N) (hist : list xop) : Prop :=
   exists pre, hist = pre ++ [XRevert; XOp OpDeleteDetached] /\
               end_of_phase_b (run_xops2 pre (init_st cap)) = true.
